@@ -44,19 +44,27 @@ Value& STRPOSExpression::value(Context & ctx) const
     if (_args.size() > 2)
     {
       Value& a2 = _args[2]->value(ctx);
-      switch (a2.type().major())
+      /* a null start position gives a null result */
+      if (a2.isNull())
       {
-      case Type::NO_TYPE:
         if (val.lvalue())
           return ctx.allocate(std::move(v));
         val.swap(std::move(v));
         return val;
+      }
+      switch (a2.type().major())
+      {
       case Type::INTEGER:
         s = *a2.integer();
         break;
       case Type::NUMERIC:
-        s = Integer(*a2.numeric());
+      {
+        Numeric d = *a2.numeric();
+        if (!(d >= -9223372036854775808.0 && d < 9223372036854775808.0))
+          throw RuntimeError(EXC_RT_INDEX_RANGE_S, a2.toString().c_str());
+        s = static_cast<Integer>(d);
         break;
+      }
       default:
         throw RuntimeError(EXC_RT_FUNC_ARG_TYPE_S, KEYWORDS[oper]);
       }
